@@ -62,6 +62,17 @@ def _transform(root: str, name: str) -> Optional[str]:
                         out.append(ln)
                     open(path, "w", encoding="utf-8").write("\n".join(out))
         return None
+    if name.startswith("patch:"):
+        # a saved unified diff (behaviour-preserving refactoring or seeded breaking change), relative to /verif
+        import subprocess
+        pf = os.path.join(os.path.dirname(os.path.dirname(os.path.abspath(__file__))), name[len("patch:"):])
+        if not os.path.exists(pf):
+            return f"patch file {name[6:]} missing"
+        dry = subprocess.run(["patch", "-p1", "-s", "-f", "--dry-run", "--no-backup-if-mismatch", "-i", pf], cwd=root, capture_output=True, text=True)
+        if dry.returncode != 0:
+            return "saved patch does not apply to this tree"
+        r = subprocess.run(["patch", "-p1", "-s", "-f", "--no-backup-if-mismatch", "-i", pf], cwd=root, capture_output=True, text=True)
+        return None if r.returncode == 0 else "saved patch does not apply to this tree"
     return f"unknown transform {name}"
 
 
